@@ -1059,3 +1059,78 @@ func (c *Ctx) helperImpliesWindow(h *ssa.Function) bool {
 	}
 	return n > 0
 }
+
+// ruleAPIListKeysUTF8 (C14.15): the maintenance API lists keys in a JSON document. encoding/json replaces bytes that are
+// not valid UTF-8 by U+FFFD, so a key with such bytes (the URL key of `http://h/?q=\xff`) is listed in a form that
+// addresses nothing. Decided: a value handed to a JSON encoder in store/expapi that derives from a Keys call has passed
+// a UTF-8 validation or an ASCII encoding. (On the pinned tree it has not: recorded as a known finding, the repair would
+// change the API's wire format.)
+func ruleAPIListKeysUTF8(c *Ctx, rule string) {
+	ep := c.P.Pkg("store/expapi")
+	if ep == nil {
+		return
+	}
+	desc := "keys listed by the maintenance API survive the JSON encoding"
+	n := 0
+	bad := ""
+	for _, fn := range c.P.RepoFuncs {
+		top := fn
+		for top.Parent() != nil {
+			top = top.Parent()
+		}
+		if top.Pkg != ep || isTestOnly(c, fn) {
+			continue
+		}
+		instrsOf(fn, func(in ssa.Instruction) {
+			cc := callOf(in)
+			if cc == nil || !(callIsMethod(cc, "encoding/json", "Encoder", "Encode") || callIsPkgFunc(cc, "encoding/json", "Marshal") || callIsPkgFunc(cc, "encoding/json", "MarshalIndent")) {
+				return
+			}
+			_, args := recvAndArgs(cc)
+			if len(args) == 0 {
+				return
+			}
+			// the document: the argument itself, or what is put into a map / struct literal built for it
+			vals := []ssa.Value{args[0]}
+			if mi, ok := args[0].(*ssa.MakeInterface); ok {
+				vals = append(vals, mi.X)
+				if mm, ok := mi.X.(*ssa.MakeMap); ok && mm.Referrers() != nil {
+					for _, r := range *mm.Referrers() {
+						if mu, ok := r.(*ssa.MapUpdate); ok && mu.Map == ssa.Value(mm) {
+							vals = append(vals, mu.Value)
+						}
+					}
+				}
+			}
+			isKeys := func(x *ssa.Call) bool { return x.Call.IsInvoke() && x.Call.Method.Name() == "Keys" }
+			fromKeys := false
+			var doc ssa.Value
+			for _, v := range vals {
+				if c.An.dependsOnCall(v, isKeys) {
+					fromKeys, doc = true, v
+				}
+			}
+			if !fromKeys {
+				return
+			}
+			n++
+			safe := c.An.dependsOnCall(doc, func(x *ssa.Call) bool {
+				return callIsPkgFunc(&x.Call, "unicode/utf8", "ValidString") || callIsPkgFunc(&x.Call, "strconv", "QuoteToASCII") ||
+					callIsPkgFunc(&x.Call, "net/url", "PathEscape") || callIsPkgFunc(&x.Call, "net/url", "QueryEscape") ||
+					callIsMethod(&x.Call, "encoding/base64", "Encoding", "EncodeToString") || callIsPkgFunc(&x.Call, "encoding/hex", "EncodeToString") ||
+					callIsPkgFunc(&x.Call, "strings", "ToValidUTF8")
+			})
+			if !safe {
+				bad = c.P.InstrPos(in)
+			}
+		})
+	}
+	switch {
+	case n == 0:
+		c.Pass(rule, "api-list-keys-utf8", desc, "no JSON document built from a key listing in store/expapi")
+	case bad != "":
+		c.Fail(rule, "api-list-keys-utf8", desc, bad+": the key list goes to encoding/json as it is; a key with bytes that are not valid UTF-8 (`http://h/?q=\\xff#0`) is listed as `http://h/?q=\\ufffd#0`, and GET/DELETE of the listed key answer 404")
+	default:
+		c.Pass(rule, "api-list-keys-utf8", desc, fmt.Sprintf("%d JSON document(s) with keys", n))
+	}
+}
